@@ -205,7 +205,7 @@ def locate_closure(rec, ordinal=1):
     """R13: inside an already located fn record, the block body of the `ordinal`-th closure written `[move] |params| { .. }`.
     Returns a record like locate(): body = the closure's `{ .. }` block, sig = 'closure |params| in <fn sig>'."""
     mb = rec['masked_body']
-    hits = list(re.finditer(r'(?:move\s+)?\|([^|]*)\|\s*\{', mb))
+    hits = list(re.finditer(r'(?:move\s+)?\|([^|]*)\|\s*(?:->\s*[^{;]+?)?\s*\{', mb))
     if len(hits) < ordinal:
         raise LostAnchor('closure #%d not found (%d closures with a block body)' % (ordinal, len(hits)))
     m = hits[ordinal - 1]
